@@ -346,6 +346,15 @@ func (s *Server) storeResolvedIfCurrent(docURI protocol.DocumentURI, version uin
 	s.resolved.Store(docURI, resolved)
 }
 
+// currentDocVersion returns the version of the content docURI has now; false when the
+// document is not open.
+func (s *Server) currentDocVersion(docURI protocol.DocumentURI) (uint64, bool) {
+	s.docVerMu.Lock()
+	defer s.docVerMu.Unlock()
+	version, ok := s.docVersions[docURI]
+	return version, ok
+}
+
 func (s *Server) isCurrentDocVersion(docURI protocol.DocumentURI, version uint64) bool {
 	s.docVerMu.Lock()
 	defer s.docVerMu.Unlock()
@@ -584,6 +593,32 @@ func (s *Server) GetResolved(docURI protocol.DocumentURI) *include.ResolvedJourn
 	return nil
 }
 
+// documentResolved returns the document's own include tree for the text the document has
+// now. A change drops the stored tree, and the diagnostics task of the new content stores
+// the next one only when it gets that far (never, while diagnostics are switched off). A
+// request that arrives in between does not answer without the included files: the tree is
+// resolved here from the current buffer and kept unless the document has changed again.
+func (s *Server) documentResolved(docURI protocol.DocumentURI) *include.ResolvedJournal {
+	if resolved := s.GetResolved(docURI); resolved != nil {
+		return resolved
+	}
+	// the version is read before the text: the text is then at least as new as the
+	// version, and a tree of newer text stored under an older version is dropped by
+	// the version bump that follows that text
+	version, open := s.currentDocVersion(docURI)
+	if !open {
+		return nil
+	}
+	content, ok := s.GetDocument(docURI)
+	path := uriToPath(docURI)
+	if !ok || path == "" {
+		return nil
+	}
+	resolved, _ := s.loader.LoadFromContent(path, content)
+	s.storeResolvedIfCurrent(docURI, version, resolved)
+	return resolved
+}
+
 // workspaceResolvedFor returns the workspace's resolved journal when the document is the
 // workspace's root journal or a file of its include tree. A journal outside that tree (a
 // second top-level journal in the folder) is not described by the workspace view: nil.
@@ -603,7 +638,7 @@ func (s *Server) getWorkspaceResolved(docURI protocol.DocumentURI) *include.Reso
 			return resolved
 		}
 	}
-	return s.GetResolved(docURI)
+	return s.documentResolved(docURI)
 }
 
 // resolvedForDocument returns the resolved journal that describes the document: the workspace's
@@ -612,7 +647,7 @@ func (s *Server) resolvedForDocument(docURI protocol.DocumentURI) *include.Resol
 	if resolved := s.workspaceResolvedFor(docURI); resolved != nil {
 		return resolved
 	}
-	return s.GetResolved(docURI)
+	return s.documentResolved(docURI)
 }
 
 // resolvedWithPrimaryPath returns the resolved journal used for cross-file features together with
@@ -626,7 +661,7 @@ func (s *Server) resolvedWithPrimaryPath(docURI protocol.DocumentURI, content st
 		return resolved, s.workspace.RootJournalPath(), s.openFileMappers()
 	}
 	path := uriToPath(docURI)
-	return s.GetResolved(docURI), path, newFileMappers(map[string]string{path: content})
+	return s.documentResolved(docURI), path, newFileMappers(map[string]string{path: content})
 }
 
 func (s *Server) RootURI() string {
